@@ -125,6 +125,51 @@ def run(rep, tier):
         detail = 'destination is memory_q.data() without offset: %s; source buffer without offset: %s; reads: %d; seek after header: %s' % (
             dst_ok, src_plain, len(reads), seeks_after_hdr)
     rep.add('R3', 'load:image-at-word-0', ok, pos(ld.node) + ' load (hextb.cpp)', detail)
+    # the whole image is copied: the length handed to memcpy is the number of bytes read, not clipped below the memory size
+    if len(mc) == 1:
+        inits = {d['id']: children(d)[-1] for d in walk(ld.body) if d['kind'] == 'VarDecl' and children(d)}
+        read_vars = set()
+        for c in cast.calls_in(ld.body):
+            if callee_of(c)[1] == 'read':
+                a_ = cast.call_args(c)
+                if len(a_) > 1 and cast.decl_ref(a_[1]):
+                    read_vars.add(cast.decl_ref(a_[1]))
+        todo, seen, clips, sizes, other = [cast.call_args(mc[0])[2]], set(), [], 0, []
+        while todo:
+            e = todo.pop()
+            for x in walk(e):
+                if x['kind'] in ('CallExpr', 'CXXMemberCallExpr'):
+                    nm = callee_of(x)[1]
+                    if nm in ('min', 'max'):
+                        for a_ in cast.call_args(x):
+                            v = cast.const_int(a_, tb)
+                            if v is not None:
+                                clips.append((nm, v))
+                    elif nm == 'size':
+                        sizes += 1
+                    elif nm not in ('data',):
+                        other.append(nm)
+                if x['kind'] in ('BinaryOperator', 'ConditionalOperator'):
+                    other.append(x.get('opcode', '?:'))
+                if x['kind'] == 'DeclRefExpr':
+                    r = (x.get('referencedDecl') or {})
+                    if r.get('kind') == 'VarDecl' and r.get('id') in read_vars:
+                        sizes += 1
+                    elif r.get('kind') == 'VarDecl' and r.get('id') in inits and r['id'] not in seen:
+                        seen.add(r['id'])
+                        todo.append(inits[r['id']])
+        mem_bytes = 4 * tb.vars['hex::MAX_MEMORY_SIZE_WORDS'] if False else None
+        mw = cast.const_int({'kind': 'DeclRefExpr', 'referencedDecl': {'kind': 'VarDecl', 'id': tb.vars['hex::MAX_MEMORY_SIZE_WORDS']['id']}}, tb) \
+            if 'hex::MAX_MEMORY_SIZE_WORDS' in tb.vars else None
+        key = 'load:whole-image-copied'
+        if other or not sizes:
+            rep.undecided('R3', key, 'the memcpy length is computed in a form this rule does not know (%s): idiom not recognised' % (other or 'no size'), pos(mc[0]))
+        else:
+            low = [v for nm, v in clips if nm == 'min' and (mw is None or v < 4 * mw)]
+            rep.add('R3', key, not low, pos(mc[0]) + ' load (hextb.cpp)',
+                    ('the copy is clipped at %s bytes, but the memory (and the largest image hexsim loads) has %s words = %s bytes: a larger image '
+                     'is silently truncated in the DUT memory' % (low, mw, 4 * mw if mw else '?')) if low else
+                    'length is the number of bytes read%s' % (' (clip bounds %s cover the memory)' % clips if clips else ''))
     # R4: sampling and exit path (schedule interpreter of C13)
     rep.rule('R4', 'after reset the shim is invoked exactly once for every evaluated rising clock edge on which the DUT requests a system '
              'call (also for back-to-back requests), never otherwise; EXIT ends the run; run() returns the exit value unchanged for every '
